@@ -157,6 +157,11 @@ pub struct TlsOutcome {
 
 /// TLS handshake from `local` family to `addr` with the given SNI (None = no SNI extension) and ALPN list
 pub async fn tls_connect(addr: SocketAddr, sni: Option<&str>, alpn: &[&[u8]], timeout: Duration) -> TlsOutcome {
+    tls_connect_opts(addr, sni, alpn, timeout, None).await
+}
+
+/// `max_fragment` = rustls `max_fragment_size`: a small value splits the ClientHello over several TLS records
+pub async fn tls_connect_opts(addr: SocketAddr, sni: Option<&str>, alpn: &[&[u8]], timeout: Duration, max_fragment: Option<usize>) -> TlsOutcome {
     let received = Arc::new(AtomicU64::new(0));
     let mut out = TlsOutcome { stream: None, error: None, server_bytes: 0, peer_cert: None, alpn: None, client_random: None };
     let sent_prefix: Arc<std::sync::Mutex<Vec<u8>>> = Default::default();
@@ -167,6 +172,7 @@ pub async fn tls_connect(addr: SocketAddr, sni: Option<&str>, alpn: &[&[u8]], ti
     };
     let tap = Tap { inner: tcp, received: received.clone(), sent_prefix: sent_prefix.clone() };
     let mut cfg = (*client_config(alpn)).clone();
+    cfg.max_fragment_size = max_fragment;
     let name = match sni {
         Some(s) => rustls::ServerName::try_from(s).unwrap_or_else(|_| rustls::ServerName::try_from("invalid.test").unwrap()),
         None => { cfg.enable_sni = false; rustls::ServerName::try_from("nosni.test").unwrap() }
